@@ -124,28 +124,47 @@ func vh_C07_L3_receiver_skip_exact() {
 	next16 := nondetU16()
 	next32 := nondetU32()
 	r.nextSSN, r.nextMID = next16, next32
-	d16 := uint16(vPick(3)) // the skipped message is the next expected one, or 1..2 further on
+	withBefore := vPick(2) == 1 // a complete, still unread message below the skipped one
+	d16 := uint16(vPick(3))     // the skipped message is the next expected one, or 1..2 further on
+	if withBefore {
+		d16 = 1 + uint16(vPick(2))
+	}
 	d32 := uint32(d16)
 	base := nondetU32()
+	var before *vMsg
+	if withBefore {
+		before = vMakeMsg(3, iData, false, next16, next32, base-1, 1, PayloadTypeWebRTCBinary)
+		r.push(before.chunks[0])
+	}
 	// an incomplete message at the skipped number, and a complete one right after it
 	partial := vMakeMsg(3, iData, false, next16+d16, next32+d32, base, 2, PayloadTypeWebRTCBinary)
 	after := vMakeMsg(3, iData, false, next16+d16+1, next32+d32+1, base+2, 1, PayloadTypeWebRTCString)
 	r.push(partial.chunks[0]) // only the first fragment arrived
 	r.push(after.chunks[0])
-	vassert(!r.isReadable(), "nothing is readable before the skip")
+	vassert(r.isReadable() == withBefore, "only a complete message at the cursor is readable before the skip")
 	if iData {
 		r.forwardTSNForOrderedMID(next32 + d32)
-	} else {
-		r.forwardTSNForOrdered(next16 + d16)
-	}
-	if iData {
 		vassert(r.nextMID == next32+d32+1, "the cursor moves right behind the skipped message")
 	} else {
+		r.forwardTSNForOrdered(next16 + d16)
 		vassert(r.nextSSN == next16+d16+1, "the cursor moves right behind the skipped message")
 	}
-	vassert(r.getNumBytes() == 1, "the partially received abandoned message is dropped, nothing else")
-	vassert(r.isReadable(), "the message after the skipped one becomes readable")
+	want := 1
+	if withBefore {
+		want = 2
+	}
+	vassert(r.getNumBytes() == want, "the partially received abandoned message is dropped, nothing else")
 	buf := make([]byte, 4)
+	if withBefore {
+		n, _, err := r.read(buf)
+		vassert(err == nil && n == 1 && buf[0] == before.bytes[0], "a complete message below the skip point is still delivered")
+		if iData {
+			vassert(r.nextMID == next32+d32+1, "reading it does not move the cursor back onto the skipped message")
+		} else {
+			vassert(r.nextSSN == next16+d16+1, "reading it does not move the cursor back onto the skipped message")
+		}
+	}
+	vassert(r.isReadable(), "the message after the skipped one becomes readable")
 	n, ppi, err := r.read(buf)
 	vassert(err == nil && n == 1 && buf[0] == after.bytes[0] && ppi == PayloadTypeWebRTCString, "and is delivered intact")
 	// a stale forward-TSN (behind the cursor) changes nothing
